@@ -1537,8 +1537,9 @@ err_sm:
                      buf);
         if (buf != err)
             strophe_free(conn->ctx, buf);
-        /* Don't disable for <failure> cases, they're no hard errors */
-        conn->sm_state->sm_enabled = bind != NULL;
+        /* stream management is off until it is enabled again (after a
+         * failed resumption _handle_bind() does that) */
+        conn->sm_state->sm_enabled = 0;
     }
     return 0;
 }
